@@ -108,6 +108,29 @@ def relations(case, ctx):
                 ctx.violation("mass-bounds", "negative pixel or pixel total above the total weight",
                               observed=[float(both.min()), float(both.sum())], expected=[0.0, wts[i] + wts[j]], extra=ex)
         ctx.outcome(np.round(single[0], 9).tolist())
+        # large diagrams: union of two halves, reversed order, zero-weight rows mixed in
+        if weight in (WEIGHTS[0], WEIGHTS[2]) and case["pixel"] == 1.0:
+            from checks.c04 import big_diagram
+
+            for n in (300, 1100):
+                D = big_diagram(n)
+                whole = T(D)
+                h1, h2 = T(D[: n // 3]), T(D[n // 3:])
+                scale = max(1.0, float(np.abs(whole).max()) * 10)
+                ctx.valid(3)
+                ctx.nontriv("large_diagram", key=(case, weight, n))
+                if not close(whole, h1 + h2, scale * 10):
+                    ctx.violation("additivity", "image of a %d-point diagram is not the sum of the images of its two parts" % n,
+                                  observed=float(np.abs(whole - h1 - h2).max()), extra=dict(ex0, n=n))
+                if not close(T(D[::-1]), whole, scale * 10):
+                    ctx.violation("row-order", "row order changes the image of a %d-point diagram" % n, extra=dict(ex0, n=n))
+                Dz = []
+                for k, p in enumerate(D):
+                    Dz.append(p)
+                    if k % 7 == 0:
+                        Dz.append([p[0], p[0]])
+                if weight[0] in ("persistence", "linear_ramp") and not close(T(Dz), whole, scale * 10):
+                    ctx.violation("zero-weight-point", "zero-weight points change the image of a %d-point diagram" % n, extra=dict(ex0, n=n))
 
 
 COLLECTION = [[[0.7, 1.9]], [[1.0, 2.0], [0.25, 2.25]], [[1.5, 1.75], [0.5, 1.0], [-0.5, 0.25]],
